@@ -2,10 +2,10 @@ package sim
 
 import (
 	"context"
-	"runtime"
-	"strings"
 	"errors"
 	"fmt"
+	"runtime"
+	"strings"
 	"time"
 
 	"cosmossdk.io/math"
